@@ -1,6 +1,6 @@
 (** C18 — proofs about the model of the CLI driver (Model.v): how the final CliOutput / disk state relates
     to the stage answers, for every project and every command list. *)
-From V Require Import Base.Util C18.Model C18.Spec C18.JsonProofs.
+From V Require Import Base.Util C18.Model C18.Spec C18.Corr C18.JsonProofs.
 Local Open Scope N_scope.
 
 Definition outcome_written (o : outcome) : list str :=
@@ -583,3 +583,397 @@ Proof.
     now rewrite run_commands_check_fails.
   - destruct (impl_pre_fail p E) as (cmd & errs & files & ->). reflexivity.
 Qed.
+
+(** * what the JSON document says (read with the specification-side accessors of Corr.v) *)
+
+Lemma jget_app k a b : jget k (a ++ b) = match jget k a with Some v => Some v | None => jget k b end.
+Proof. induction a as [|[k' v] r IH]; cbn [app jget]; [reflexivity|]. destruct (str_eqb k k'); auto. Qed.
+
+Definition error_member (cerr : option (option str * str)) : list (str * json) :=
+  match cerr with
+  | Some (cmd, msg) =>
+      [ (s "error", JObj [ (s "command", match cmd with Some c => JStr c | None => JNull end);
+                           (s "message", JStr msg) ]) ]
+  | None => []
+  end.
+Definition check_member (files : list sfile) (x : st) : list (str * json) :=
+  if existsb (str_eqb CHECK) (st_run x)
+  then [ (s "check", JObj [ (s "errors", JArr (map (check_error_json files) (st_check x))) ]) ] else [].
+Definition generate_member (x : st) : list (str * json) :=
+  if existsb (str_eqb GENERATE) (st_run x)
+  then [ (s "generate", JObj [ (s "files", JArr (map gen_file_json (st_gen x))) ]) ] else [].
+
+Lemma json_tree_members files x cerr :
+  json_tree files x cerr = JObj (error_member cerr ++ check_member files x ++ generate_member x).
+Proof. reflexivity. Qed.
+
+Lemma jget_error_member k cerr : str_eqb k (s "error") = false -> jget k (error_member cerr) = None.
+Proof. intro H. destruct cerr as [[cmd m]|]; cbn [error_member jget]; [rewrite H|]; reflexivity. Qed.
+Lemma jget_check_member k files x : str_eqb k (s "check") = false -> jget k (check_member files x) = None.
+Proof. intro H. unfold check_member. destruct (existsb _ _); cbn [jget]; [rewrite H|]; reflexivity. Qed.
+Lemma jget_generate_member k x : str_eqb k (s "generate") = false -> jget k (generate_member x) = None.
+Proof. intro H. unfold generate_member. destruct (existsb _ _); cbn [jget]; [rewrite H|]; reflexivity. Qed.
+
+Lemma existsb_str_In c l : existsb (str_eqb c) l = true <-> In c l.
+Proof.
+  rewrite existsb_exists. split.
+  - intros (y & Hy & E). destruct (str_eqb_spec c y); [now subst|discriminate].
+  - intro H. exists c. split; auto. apply str_eqb_refl.
+Qed.
+
+(** the files the JSON document lists are the files created *)
+Lemma collect_gen_files l :
+  collect (fun e => match jstr (jfield (s "fileType") e), jstr (jfield (s "path") e) with
+                    | Some _, Some p => Some [p] | _, _ => None end) (map gen_file_json l) = Some (map snd l).
+Proof.
+  induction l as [|[k path] r IH]; [reflexivity|]. cbn [map collect]. rewrite IH. reflexivity.
+Qed.
+
+Lemma json_listed_tree files x cerr :
+  inv x -> json_listed (json_tree files x cerr) = Some (st_written x).
+Proof.
+  intros [IW IG]. rewrite json_tree_members. unfold json_listed, jfield.
+  rewrite !jget_app, jget_error_member, jget_check_member by reflexivity.
+  unfold generate_member. destruct (existsb (str_eqb GENERATE) (st_run x)) eqn:E.
+  - cbn [jget]. change (str_eqb (s "generate") (s "generate")) with true. cbn iota. cbn [jfield jget].
+    change (str_eqb (s "files") (s "files")) with true. cbn iota.
+    rewrite collect_gen_files. now rewrite IW.
+  - cbn [jget]. destruct IG as [IG|IG].
+    + now rewrite IW, IG.
+    + apply existsb_str_In in IG. congruence.
+Qed.
+
+Theorem json_lists_written p code out err w :
+  run p = Exit code out err w -> pj_format p = Json ->
+  exists t, parse_json out = Some t /\ json_listed t = Some w.
+Proof.
+  intros H Hf. destruct (run_exit p code out err w H) as (r & x & files & cerr & E & _ & _ & R).
+  rewrite Hf in R. pose proof (render_json _ _ _ _ _ _ _ _ R) as ->.
+  exists (json_tree files x cerr). split; [apply parse_print_json|].
+  unfold render in R. injection R as _ <-.
+  apply json_listed_tree. pose proof (impl_inv p) as I. now rewrite E in I.
+Qed.
+
+(** success records no check error *)
+Lemma impl_ok_check p :
+  fst (fst (run_cli_impl p)) = IOk -> st_check (snd (fst (run_cli_impl p))) = [].
+Proof.
+  destruct (pre_ok p) eqn:E.
+  - rewrite (impl_pre_ok p E). cbn [fst snd]. intro H. now rewrite run_commands_ok_check.
+  - destruct (impl_pre_fail p E) as (cmd & errs & files & ->). discriminate.
+Qed.
+
+Lemma collect_nil_check files : collect json_check_diag (map (check_error_json files) []) = Some [].
+Proof. reflexivity. Qed.
+
+(** exit 0 exactly when the document has no "error" member; then it has no check error either *)
+Theorem json_exit_zero_iff_no_error p code out err w :
+  run p = Exit code out err w -> pj_format p = Json ->
+  exists t, parse_json out = Some t
+            /\ (code = 0 <-> jfield (s "error") t = None)
+            /\ (code = 0 -> json_diags t = Some []).
+Proof.
+  intros H Hf. destruct (run_exit p code out err w H) as (r & x & files & cerr & E & Hr & Hc & R).
+  rewrite Hf in R. pose proof (render_json _ _ _ _ _ _ _ _ R) as ->.
+  exists (json_tree files x cerr). split; [apply parse_print_json|].
+  rewrite json_tree_members. unfold jfield, json_diags.
+  destruct (command_error_code files r code cerr Hr Hc) as [(-> & -> & ->)|(-> & cmd & errs & m & -> & ->)].
+  - split.
+    { split; [intros _|reflexivity]. cbn [error_member app].
+      rewrite jget_app, jget_check_member, jget_generate_member by reflexivity. reflexivity. }
+    intros _. cbn [error_member app].
+    unfold jfield. rewrite jget_app, jget_generate_member by reflexivity.
+    pose proof (impl_ok_check p) as Hck. rewrite E in Hck. cbn [fst snd] in Hck. specialize (Hck eq_refl).
+    unfold check_member. rewrite Hck. destruct (existsb _ _); reflexivity.
+  - split; [|discriminate]. split; [discriminate|]. cbn [error_member app jget].
+    change (str_eqb (s "error") (s "error")) with true. discriminate.
+Qed.
+
+(** rdjson: a command error is the first diagnostic *)
+Theorem rdjson_has_command_error p out err w :
+  run p = Exit 1 out err w -> pj_format p = Rdjson ->
+  exists t msg rest, parse_json out = Some t
+                     /\ jfield (s "diagnostics") t = Some (JArr (JObj [(s "message", JStr msg)] :: rest)).
+Proof.
+  intros H Hf. destruct (run_exit p 1 out err w H) as (r & x & files & cerr & E & Hr & Hc & R).
+  rewrite Hf in R. pose proof (render_rdjson _ _ _ _ _ _ _ _ R) as ->.
+  destruct (command_error_code files r 1 cerr Hr Hc) as [(Hz & _)|(_ & cmd & errs & m & -> & _)]; [discriminate|].
+  exists (rdjson_tree files x (Some (cmd, m))), m, (map (rd_diag files) (st_check x)).
+  split; [apply parse_print_json|reflexivity].
+Qed.
+
+(** * every error of the stage that fails is reported *)
+
+Definition reaches_check (p : proj) : Prop :=
+  pre_ok p = true /\ exists cmd r, pj_commands p = cmd :: r /\ (str_eqb cmd CHECK = true \/ str_eqb cmd GENERATE = true).
+
+Theorem check_errors_all_reported p :
+  reaches_check p -> st_check (snd (fst (run_cli_impl p))) = check_impl p.
+Proof.
+  intros (Hpre & cmd & r & Hc & Hcmd). rewrite (impl_pre_ok p Hpre). cbn [fst snd]. rewrite Hc.
+  now apply first_command_check.
+Qed.
+
+Lemma run_commands_run_grows p cmds : forall c x,
+  exists more, st_run (snd (run_commands p cmds c x)) = st_run x ++ more.
+Proof.
+  induction cmds as [|cmd r IH]; intros c x; [exists []; now rewrite app_nil_r|]. cbn [run_commands].
+  pose proof (run_command_step p cmd c x) as (_ & (more & R) & _).
+  destruct (run_command p cmd c x) as [c' x'|e x'|x']; cbn [res_st snd] in *; eauto.
+  destruct (IH c' x') as (more' & R'). exists (more ++ more'). now rewrite R', R, app_assoc.
+Qed.
+
+Lemma reaches_check_ran p :
+  reaches_check p -> existsb (str_eqb CHECK) (st_run (snd (fst (run_cli_impl p)))) = true.
+Proof.
+  intros (Hpre & cmd & r & Hc & Hcmd). rewrite (impl_pre_ok p Hpre). cbn [fst snd]. rewrite Hc.
+  apply existsb_str_In. cbn [run_commands]. unfold run_command.
+  assert (G : forall y, In CHECK (st_run y) ->
+            In CHECK (st_run (snd match generate_body p y with
+                                  | ROk c' x' => run_commands p r c' x'
+                                  | RErr e x' => (IErr (Some cmd) [e], x')
+                                  | RPanic x' => (IPanic, x') end))).
+  { intros y Hy. pose proof (generate_body_st p y) as (R & _).
+    destruct (generate_body p y) as [c' x'|e x'|x']; cbn [res_st snd] in *;
+      try (rewrite R; apply in_or_app; now left).
+    destruct (run_commands_run_grows p r c' x') as (more & ->). rewrite R. apply in_or_app. left. apply in_or_app. now left. }
+  destruct (str_eqb cmd CHECK) eqn:EC.
+  - destruct (run_check_unresolved p st0) as [[_ E]|[_ E]]; rewrite E; cbn [snd].
+    + destruct (run_commands_run_grows p r Resolved (log_line (add_run st0 CHECK) (s "'check' finished"))) as (more & ->).
+      apply in_or_app. left. now left.
+    + now left.
+  - destruct Hcmd as [?|EG]; [discriminate|]. rewrite EG. unfold run_generate.
+    destruct (run_check_unresolved p st0) as [[_ E]|[_ E]]; rewrite E.
+    + apply G. now left.
+    + cbn [snd]. now left.
+Qed.
+
+(** in the json format the "check" member carries every error check_impl answered, in order *)
+Theorem json_reports_check_errors p code out err w :
+  run p = Exit code out err w -> pj_format p = Json -> reaches_check p ->
+  exists t, parse_json out = Some t
+            /\ jfield (s "check") t
+               = Some (JObj [ (s "errors", JArr (map (check_error_json (store p)) (check_impl p))) ]).
+Proof.
+  intros H Hf Hreach. destruct (run_exit p code out err w H) as (r & x & files & cerr & E & _ & _ & R).
+  rewrite Hf in R. pose proof (render_json _ _ _ _ _ _ _ _ R) as ->.
+  exists (json_tree files x cerr). split; [apply parse_print_json|].
+  pose proof (check_errors_all_reported p Hreach) as Hck. pose proof (reaches_check_ran p Hreach) as Hran.
+  destruct Hreach as (Hpre & _). rewrite (impl_pre_ok p Hpre) in E. injection E as _ Ex Ef.
+  rewrite (impl_pre_ok p Hpre) in Hck, Hran. cbn [fst snd] in Hck, Hran. rewrite Ex in Hck, Hran. subst files.
+  rewrite json_tree_members. unfold jfield. rewrite !jget_app, jget_error_member by reflexivity.
+  unfold check_member. rewrite Hran, Hck. reflexivity.
+Qed.
+
+(** which errors check_impl answers: all those of the first stage that has any *)
+Lemma check_impl_schema_stage p e :
+  pj_sch_resolve p = None -> In e (pj_sch_check p) -> In (true, e) (check_impl p).
+Proof.
+  intros Hr He. unfold check_impl. rewrite Hr. destruct (pj_sch_check p) as [|a l] eqn:E; [contradiction|].
+  cbn [is_nil negb]. apply in_map. exact He.
+Qed.
+
+Definition schema_stage_ok (p : proj) : Prop :=
+  pj_sch_resolve p = None /\ pj_sch_check p = [] /\ pj_sch_plugin_check p = [].
+
+Lemma filter_some_In {A B} (g : A -> option B) l a b : In a l -> g a = Some b -> In b (filter_some (map g l)).
+Proof.
+  induction l as [|x r IH]; intros Hin Hg; [contradiction|]. cbn [map filter_some].
+  destruct Hin as [->|Hin]; [rewrite Hg; now left|]. destruct (g x); [right|]; auto.
+Qed.
+
+Lemma check_impl_ext_stage p o e :
+  schema_stage_ok p -> In o (pj_ops p) -> op_ext o = Some e -> In (false, e) (check_impl p).
+Proof.
+  intros (Hr & Hc & Hp) Ho He. unfold check_impl. rewrite Hr, Hc, Hp. cbn [is_nil negb].
+  pose proof (filter_some_In op_ext _ _ _ Ho He) as Hin.
+  destruct (filter_some (map op_ext (pj_ops p))); [contradiction|]. cbn [is_nil negb]. now apply in_map.
+Qed.
+
+Lemma check_impl_imp_stage p o e :
+  schema_stage_ok p -> (forall o', In o' (pj_ops p) -> op_ext o' = None) ->
+  In o (pj_ops p) -> op_imp o = Some e -> In (false, e) (check_impl p).
+Proof.
+  intros (Hr & Hc & Hp) Hext Ho He. unfold check_impl. rewrite Hr, Hc, Hp. cbn [is_nil negb].
+  assert (E : filter_some (map op_ext (pj_ops p)) = []).
+  { apply filter_some_nil. apply forallb_forall. intros a Ha. now rewrite (Hext a Ha). }
+  rewrite E. cbn [is_nil negb].
+  pose proof (filter_some_In op_imp _ _ _ Ho He) as Hin.
+  destruct (filter_some (map op_imp (pj_ops p))); [contradiction|]. cbn [is_nil negb]. now apply in_map.
+Qed.
+
+Lemma check_impl_check_stage p o e :
+  schema_stage_ok p -> (forall o', In o' (pj_ops p) -> op_ext o' = None /\ op_imp o' = None) ->
+  In o (pj_ops p) -> In e (op_check o) -> In (false, e) (check_impl p).
+Proof.
+  intros (Hr & Hc & Hp) Hres Ho He. unfold check_impl. rewrite Hr, Hc, Hp. cbn [is_nil negb].
+  assert (E1 : filter_some (map op_ext (pj_ops p)) = []).
+  { apply filter_some_nil. apply forallb_forall. intros a Ha. now rewrite (proj1 (Hres a Ha)). }
+  assert (E2 : filter_some (map op_imp (pj_ops p)) = []).
+  { apply filter_some_nil. apply forallb_forall. intros a Ha. now rewrite (proj2 (Hres a Ha)). }
+  rewrite E1, E2. cbn [is_nil negb]. apply in_map. apply in_concat. exists (op_check o). split; [now apply in_map|exact He].
+Qed.
+
+(** check-stage diagnostics for every offending file: an error the checker found in any operation file is
+    in the JSON document, labelled "operation" and carrying that file's path, line and column *)
+Theorem all_offending_files_reported p code out err w o e :
+  run p = Exit code out err w -> pj_format p = Json -> reaches_check p ->
+  schema_stage_ok p -> (forall o', In o' (pj_ops p) -> op_ext o' = None /\ op_imp o' = None) ->
+  In o (pj_ops p) -> In e (op_check o) ->
+  exists t l, parse_json out = Some t
+              /\ jfield (s "check") t = Some (JObj [ (s "errors", JArr l) ])
+              /\ In (check_error_json (store p) (false, e)) l.
+Proof.
+  intros H Hf Hreach Hs Hres Ho He.
+  destruct (json_reports_check_errors p code out err w H Hf Hreach) as (t & Ht & Hck).
+  exists t, (map (check_error_json (store p)) (check_impl p)). repeat split; auto.
+  apply in_map. now apply (check_impl_check_stage p o e).
+Qed.
+
+Lemma check_error_json_located files k e f pos :
+  located_file files e = Some (f, pos) ->
+  check_error_json files (k, e)
+  = JObj [ (s "fileType", JStr (kind_str k));
+           (s "file", JObj [ (s "path", JStr (f_path f)); (s "line", JNum (u32 (p_line pos)));
+                             (s "column", JNum (u32 (p_col pos))) ]);
+           (s "message", JStr (e_msg e)) ].
+Proof. intro H. unfold check_error_json. now rewrite H. Qed.
+
+(** * locating a fault in text: message_for_line *)
+
+Lemma enumerate_from_bound {A} (l : list A) : forall k i a, In (i, a) (enumerate_from k l) -> k <= i < k + N.of_nat (length l).
+Proof.
+  induction l as [|x r IH]; intros k i a H; [contradiction|]. cbn [enumerate_from length] in *.
+  destruct H as [H|H].
+  - inversion H; subst. lia.
+  - apply IH in H. lia.
+Qed.
+
+Lemma In_firstn {A} n (l : list A) x : In x (firstn n l) -> In x l.
+Proof.
+  revert l. induction n as [|n IH]; intros l H; [contradiction|].
+  destruct l as [|a l]; [contradiction|]. cbn [firstn] in H. destruct H as [H|H]; [now left|right; auto].
+Qed.
+Lemma In_skipn {A} n (l : list A) x : In x (skipn n l) -> In x l.
+Proof.
+  revert l. induction n as [|n IH]; intros l H; [exact H|].
+  destruct l as [|a l]; [contradiction|]. cbn [skipn] in H. right. auto.
+Qed.
+
+(** a position on a line that str::lines does not yield (one past the last line of a text that ends with a
+    newline — where a parser reports a missing closing brace) is printed as the bare message *)
+Theorem message_for_line_bare path src p err additional :
+  N.of_nat (length (lines src)) <= p_line p -> message_for_line path src p err additional = err.
+Proof.
+  intro Hl. unfold message_for_line.
+  match goal with |- (if negb (existsb ?f ?l) then _ else _) = _ => destruct (existsb f l) eqn:E end; [|reflexivity].
+  exfalso. apply existsb_exists in E as ((i & a) & Hin & Hi). cbn [fst] in Hi. apply N.eqb_eq in Hi. subst i.
+  apply In_firstn, In_skipn, enumerate_from_bound in Hin. lia.
+Qed.
+
+(** otherwise (the line exists and a line around it has a non-blank character) the text starts with
+    path:line:column, 1-based *)
+Theorem message_for_line_located path src p err additional mi :
+  existsb (fun il => N.eqb (fst il) (p_line p))
+          (firstn 5 (skipn (N.to_nat (p_line p - 2)) (enumerate_from 0 (lines src)))) = true ->
+  min_indent (firstn 5 (skipn (N.to_nat (p_line p - 2)) (enumerate_from 0 (lines src)))) = Some mi ->
+  exists rest,
+    message_for_line path src p err additional
+    = (if additional then INDENT else []) ++ path ++ [58] ++ dec (p_line p + 1) ++ [58] ++ dec (p_col p + 1) ++ [10] ++ rest.
+Proof.
+  intros H1 H2. unfold message_for_line. rewrite H1, H2. cbn [negb]. eexists. reflexivity.
+Qed.
+
+(** witnesses: exit 1, a positioned parse error, and no "path:line:column" anywhere in the output *)
+Definition eof_witness (f : fmt) : proj :=
+  mk_proj (s "/w") [s "check"] f CfgOk [] false
+    [mk_schf (s "/w/schema.graphql") (s "type Query { a: Int }
+") None] []
+    [mk_opf (s "/w/q.graphql") (s "query Q { a
+") (Some (mkerr (s "Parse error: expected Selection") (Some (mkpos 1 0 1 false)) [])) None None [] SOk]
+    None [] [] (mk_gencfg WithLoaderTS50 (Some (s "out/schema.d.ts")) None None false false) SOk SOk SOk.
+
+Lemma parse_error_at_end_of_input_not_located_refuted :
+  forall f, exists out err w,
+    run (eof_witness f) = Exit 1 out err w
+    /\ locations_of (s "/w/q.graphql") out = [] /\ locations_of (s "/w/q.graphql") err = [].
+Proof. intros [| |]; eexists; eexists; eexists; vm_compute; repeat split. Qed.
+
+(** an error value of a printer reaches the driver without position (the blanket From impl drops it) *)
+Definition scalar_witness (f : fmt) : proj :=
+  mk_proj (s "/w") [s "generate"] f CfgOk [] false
+    [mk_schf (s "/w/schema.graphql") (s "scalar Date
+type Query { d: Date }
+") None] []
+    [] None [] [] (mk_gencfg WithLoaderTS50 (Some (s "out/schema.d.ts")) None None false false)
+    (SErr (plain (s "Type for scalar 'Date' is not provided"))) SOk SOk.
+
+Lemma generate_error_not_located_refuted :
+  forall f, exists out err w,
+    run (scalar_witness f) = Exit 1 out err w
+    /\ locations_of (s "/w/schema.graphql") out = [] /\ locations_of (s "/w/schema.graphql") err = [].
+Proof. intros [| |]; eexists; eexists; eexists; vm_compute; repeat split. Qed.
+
+(** * non-vacuity: the guards of the theorems are met by ordinary projects *)
+
+(** a clean project: generate writes the four configured files, exit 0, the guard [crashed = false] holds *)
+Definition clean_example (f : fmt) : proj :=
+  mk_proj (s "/w") [s "check"; s "generate"] f CfgOk [] false
+    [mk_schf (s "/w/schema/a.graphql") (s "type Query { a: Int }
+") None] []
+    [mk_opf (s "/w/ops/q.graphql") (s "query Q { a }
+") None None None [] SOk]
+    None [] [] (mk_gencfg WithLoaderTS50 (Some (s "out/schema.d.ts")) None None false false) SOk SOk SOk.
+
+Example clean_example_ok :
+  crashed (run (clean_example Json)) = false /\ clean (clean_example Json) = true
+  /\ exit_status (run (clean_example Json)) = 0
+  /\ outcome_written (run (clean_example Json))
+     = [s "/w/out/schema.d.ts"; s "/w/out/schema.d.ts.map"; s "/w/ops/q.d.graphql.ts"; s "/w/ops/q.d.graphql.ts.map"].
+Proof. vm_compute. repeat split. Qed.
+
+(** two operation files with a checker error each: [reaches_check], [schema_stage_ok] and the resolution
+    hypotheses of [all_offending_files_reported] hold, and both files are named in the document *)
+Definition two_faults_example : proj :=
+  mk_proj (s "/w") [s "generate"] Json CfgOk [] false
+    [mk_schf (s "/w/schema/a.graphql") (s "type Query { a: Int }
+") None] []
+    [mk_opf (s "/w/ops/q0.graphql") (s "query Q { a zz }
+") None None None [mkerr (s "Field 'zz' is not defined") (Some (mkpos 0 12 1 false)) []] SOk;
+     mk_opf (s "/w/ops/q1.graphql") (s "query R {
+  yy
+}
+") None None None [mkerr (s "Field 'yy' is not defined") (Some (mkpos 1 2 2 false)) []] SOk]
+    None [] [] (mk_gencfg WithLoaderTS50 (Some (s "out/schema.d.ts")) None None false false) SOk SOk SOk.
+
+Example two_faults_example_guards :
+  reaches_check two_faults_example /\ schema_stage_ok two_faults_example
+  /\ (forall o', In o' (pj_ops two_faults_example) -> op_ext o' = None /\ op_imp o' = None)
+  /\ exit_status (run two_faults_example) = 1 /\ outcome_written (run two_faults_example) = [].
+Proof.
+  repeat split; try reflexivity.
+  - exists (s "generate"), []. split; [reflexivity|right; reflexivity].
+  - destruct H as [<-|[<-|[]]]; reflexivity.
+  - destruct H as [<-|[<-|[]]]; reflexivity.
+Qed.
+
+Example two_faults_example_output :
+  match run two_faults_example with
+  | Exit 1 out _ [] =>
+      match parse_json out with
+      | Some t => option_map (map (fun d => (d_path d, d_line d, d_col d))) (json_diags t)
+                  = Some [ (s "/w/ops/q0.graphql", 0, 12); (s "/w/ops/q1.graphql", 1, 2) ]
+      | None => False
+      end
+  | _ => False
+  end.
+Proof. vm_compute. reflexivity. Qed.
+
+(** [message_for_line_located]: its two hypotheses hold for a position inside a file *)
+Example located_example :
+  exists rest, message_for_line (s "/w/q.graphql") (s "query Q {
+  a
+}
+") (mkpos 1 2 0 false) (s "Field 'a' is not defined") false = s "/w/q.graphql:2:3
+" ++ rest.
+Proof. eexists. vm_compute. reflexivity. Qed.
